@@ -105,7 +105,7 @@ import native_run
 nreg = native_run.registry()
 P["C12"] = dict(level="exploration", verus=[], kani=[], kani_thorough=[], native=sorted(n for n in nreg if "C12" in nreg[n]["props"]),
     level_text="BOUNDED, not a proof: for every member of the container family, a version-gated enum and a set of library containers, an independent reader driven only by get_schema::<T>(v) parses the bytes of every small-scope value completely and finds no recursion markers -- executed natively on the real code (small-scope enumeration). Neither verifier reaches this property: CBMC does not terminate on schema construction (String/Vec/Box heavy), and the derive output is outside Verus' subset.",
-    level_note="Bounded over definitions and over values (small domains per draw). Four library type groups are known findings (Result, HashMap/IndexMap guard, SocketAddr, BitVec/BitSet).",
+    level_note="Bounded over definitions and over values (small domains per draw). Five known findings (Result, HashMap/IndexMap guard, SocketAddr, BitVec/BitSet, enums with more than 256 variants).",
     technique="bounded stand-in: native small-scope enumeration with an independent schema-driven reader (no deductive proof available)", trusted_base=["rustc"],
     explanation="bounded stand-in only")
 P["C15"] = dict(level="proof", verus=["v_diff"], kani=[], kani_thorough=[], native=["ledger_compat", "pairs_diff"],
